@@ -767,6 +767,9 @@ def krylov(model, sfield, efield, var):
         efield.field, i = getattr(sp.sparse.linalg, var.sslsolver)(
                 A=A, b=sfield.field, x0=efield.field, **{TOL: var.tol},
                 maxiter=var.ssl_maxit, atol=1e-30, M=M, callback=callback)
+        # Error of the returned field; the last callback might be outdated
+        # (e.g., bicgstab can return without a final call to callback).
+        var.l2 = residual(model, sfield, efield, True)
     except _ConvergenceError:
         i = -1  # Mark it as error; returned field is all zero.
         var.exit_message += " (returned field is zero)"
